@@ -21,7 +21,13 @@
  * handshake traffic key) and the list actually offered from ClientHello / CertificateRequest:
  * completion => algorithm offered by the verifier and usable with the signer's key.  A rogue signer
  * (the library's own chooser overridden through --wrap) signs with an algorithm the verifier did
- * not offer: the verifier must not complete. */
+ * not offer: the verifier must not complete.
+ *
+ * ECDHE curve sets under (D)TLS <= 1.2: both sides restrict sslSessOpts_t.ecFlags (grid of set pairs incl.
+ * singletons and disjoint sets, ECDHE_RSA and ECDHE_ECDSA); the named curve of ServerKeyExchange and the
+ * supported_groups of the ClientHello are read from the wire: completion => curve enabled on both sides and on
+ * offer; disjoint sets => no completion.  A rogue server (curve look-up overridden through --wrap) puts its
+ * ECDHE key on a curve the client did not offer: the client must not complete. */
 #include "mx.h"
 #include "mx_surgeon.h"
 
@@ -100,6 +106,8 @@ typedef struct {
     int ems;                          /* extended-master-secret scenario: 1 = full handshake, 2 = session-id resumption, 3 = ticket resumption; emsC/emsS (-1 disabled, 0 enabled, 1 required) describe the judged
                                          connection, emsC1/emsS1 the one that established the session */
     int emsC1, emsS1;
+    int forceCurve;                   /* rogue server: generates its ECDHE key on this named curve whatever the client offered */
+    int ec; uint32_t ecC, ecS;        /* ECDHE curve-set case ((D)TLS <= 1.2): sslSessOpts_t.ecFlags of client / server (0 = option left alone: every compiled-in curve) */
 } cfg_t;
 typedef struct { int kind, field, arg, arg2, which; } tamper_t;   /* kind 0 = none, 1 = ClientHello edit, 2 = ServerHello edit; which 0 = first hello of that direction the edit applies to,
                                                                       n = exactly the n-th hello of that direction (HelloRetryRequest handshakes: ClientHello1/2, HelloRetryRequest = 1st, ServerHello = 2nd) */
@@ -155,11 +163,22 @@ uint16_t __wrap_tls13ChooseSigAlg(ssl_t *ssl, const uint16_t *peerSigAlgs, psSiz
     return a;
 }
 
+/* rogue server for the key-exchange group: the curve look-up made by the server's ClientHello parser ((D)TLS <= 1.2 ECDHE key generation) answers with another compiled-in curve;
+   the ServerKeyExchange then names and uses that curve, correctly signed - everything else is the unmodified library */
+static int force_curve;
+int32_t __real_getEccParamById(psCurve16_t curveId, const psEccCurve_t **curve);
+int32_t __wrap_getEccParamById(psCurve16_t curveId, const psEccCurve_t **curve)
+{
+    if (force_curve && mx_actor == 1) { vf_stat("rogue_curves_chosen", 1); return __real_getEccParamById((psCurve16_t) force_curve, curve); }
+    return __real_getEccParamById(curveId, curve);
+}
+
 /* ---------------------------------------------------------------- wire observer ---- */
 typedef struct {
     int v13, nCH, nHRR, nSH, ske, cvC, cvS, sawCreq, nOff, nCreq, ccs[2];
     int abbrev, chEms, shEms, chTicket, chSid, nCertS, chLegacy, shLegacy, shComp, chNcomp, chComp0, shSuite; unsigned char shTail[8];   /* of the last ClientHello / ServerHello */ uint16_t off[64], creq[64]; unsigned long long hsseq[2];
     unsigned char hs[2][70000]; int hslen[2], hspos[2];
+    int skeCurve, chHasGrp, nGrp; uint16_t grp[40];   /* named curve of the (D)TLS <= 1.2 ServerKeyExchange; supported_groups of the last ClientHello */
 } wire_t;
 static const unsigned char hrr_random[32] = { 0xCF, 0x21, 0xAD, 0x74, 0xE5, 0x9A, 0x61, 0x11, 0xBE, 0x1D, 0x8C, 0x02, 0x1E, 0x65, 0xB8, 0x91, 0xC2, 0xA2, 0x11, 0x16, 0x7A, 0xBB, 0x8C, 0x5E, 0x07, 0x9E, 0x09, 0xE2, 0xC8, 0xA8, 0x33, 0x9C };
 static const unsigned char *find_ext(const unsigned char *p, const unsigned char *e, int want, int *len)   /* p = the 2-byte length of an extension block */
@@ -176,6 +195,7 @@ static void wire_msg(wire_t *w, int dir, int dtls, int type, const unsigned char
         w->nCH++; const unsigned char *p = b + 34; if (p >= e) return; w->chLegacy = (b[0] << 8) | b[1]; w->chSid = p[0]; p += 1 + p[0]; if (dtls) { if (p >= e) return; p += 1 + p[0]; }
         if (p + 2 > e) return; p += 2 + ((p[0] << 8) | p[1]); if (p >= e) return; w->chNcomp = p[0]; w->chComp0 = p[0] ? p[1] : -1; p += 1 + p[0];
         if ((x = find_ext(p, e, 13, &xl))) w->nOff = read_alg_list(x, xl, w->off, 64);
+        w->chHasGrp = 0; w->nGrp = 0; if ((x = find_ext(p, e, 10, &xl))) { w->chHasGrp = 1; w->nGrp = read_alg_list(x, xl, w->grp, 40); }
         w->chEms = find_ext(p, e, 23, &xl) != NULL; w->chTicket = (x = find_ext(p, e, 35, &xl)) ? xl : 0;
     } else if (dir == 0 && type == 15) { if (l >= 2) w->cvC = (b[0] << 8) | b[1]; }
     else if (dir == 1 && type == 2) {
@@ -183,7 +203,7 @@ static void wire_msg(wire_t *w, int dir, int dtls, int type, const unsigned char
         const unsigned char *p = b + 34; w->shLegacy = (b[0] << 8) | b[1]; memcpy(w->shTail, b + 26, 8); if (p + 1 + p[0] + 3 > e) return; w->shSuite = (p[1 + p[0]] << 8) | p[2 + p[0]]; w->shComp = p[3 + p[0]];
         p += 1 + p[0] + 3; if ((x = find_ext(p, e, 43, &xl)) && xl >= 2 && x[0] == 3 && x[1] == 4) w->v13 = 1;
         w->shEms = find_ext(p, e, 23, &xl) != NULL;
-    } else if (dir == 1 && type == 12) { if (!w->v13 && l >= 4 && b[0] == 3) { int pl = b[3]; if (4 + pl + 2 <= l) w->ske = (b[4 + pl] << 8) | b[5 + pl]; } }
+    } else if (dir == 1 && type == 12) { if (!w->v13 && l >= 4 && b[0] == 3) { w->skeCurve = (b[1] << 8) | b[2]; int pl = b[3]; if (4 + pl + 2 <= l) w->ske = (b[4 + pl] << 8) | b[5 + pl]; } }
     else if (dir == 1 && type == 13) {
         w->sawCreq = 1; if (l < 1) return; const unsigned char *p = b + 1 + b[0];
         if (w->v13) { if ((x = find_ext(p, e, 13, &xl))) w->nCreq = read_alg_list(x, xl, w->creq, 64); }
@@ -239,6 +259,7 @@ static void open_pair(mx_conn *k, const cfg_t *c, sslSessionId_t *sid, int *rcs,
     if (c->nsigS) matrixSslSessOptsSetSigAlgs(&so, (uint16_t *) c->sigS, c->nsigS);
     if (c->nsigC) matrixSslSessOptsSetSigAlgs(&co, (uint16_t *) c->sigC, c->nsigC);
     so.extendedMasterSecret = c->emsS < 0 ? -1 : c->emsS > 0; co.extendedMasterSecret = c->emsC < 0 ? -1 : c->emsC > 0;
+    if (c->ecS) so.ecFlags = (int32) c->ecS; if (c->ecC) co.ecFlags = (int32) c->ecC;
     if (c->ticket) co.ticketResumption = 1;
     if (c->scsv) co.fallbackScsv = 1;
     memset(&k->s, 0, sizeof k->s); memset(&k->c, 0, sizeof k->c);
@@ -334,6 +355,55 @@ static void sig_oracle(const cfg_t *c, mx_conn *k, int done)
     }
     vf_stat("signature_negotiations_checked", 1);
 }
+static void roundtrip(mx_conn *kp);
+/* ECDHE curve sets under (D)TLS <= 1.2.  Both sides restrict (or leave alone) sslSessOpts_t.ecFlags; only ECDHE suites are offered, so a completed full handshake has a ServerKeyExchange
+   whose named curve is the group in force.  It must be enabled on both sides and be in the supported_groups list that was on the wire; disjoint sets must not complete. */
+#define EC_ALL 0x1f
+static uint32_t curve_flag(int id) { return id == 19 ? IS_SECP192R1 : id == 21 ? IS_SECP224R1 : id == 23 ? IS_SECP256R1 : id == 24 ? IS_SECP384R1 : id == 25 ? IS_SECP521R1 : 0; }
+static const char *ec_str(uint32_t f) { static char b[4][48]; static int r; char *o = b[r++ & 3]; int p = 0; o[0] = 0; static const int ids[5] = { 19, 21, 23, 24, 25 }; for (int i = 0; i < 5; i++) if (f & (1u << i)) p += snprintf(o + p, 48 - p, "%s%d", p ? "," : "", ids[i]); return o; }
+static void ec_oracle(const cfg_t *c, mx_conn *k, int cdone, int sdone)
+{
+    uint32_t eC = c->ecC ? c->ecC : EC_ALL, eS = c->ecS ? c->ecS : EC_ALL, common = eC & eS, offered = 0; int foreign = 0;
+    const ident_t *S = &ident[c->idS]; uint32_t idf = S->kt == KT_P256 ? IS_SECP256R1 : S->kt == KT_P384 ? IS_SECP384R1 : S->kt == KT_P521 ? IS_SECP521R1 : 0;
+    for (int i = 0; i < W.nGrp; i++) { uint32_t f = curve_flag(W.grp[i]); if (f) offered |= f; else foreign++; }
+    vf_distinct("%s|%x|%x|%d|%x|%x|%d", cur_class, c->cmask, c->smask, c->idS, c->ecC, c->ecS, c->forceCurve);
+    vf_statf(1, "ec_%s_%s", cur_class, cdone && sdone ? "complete" : "failed");
+    if (W.v13) { vf_incon("curve-set case %s negotiated TLS 1.3", cur_desc); return; }
+    if (!W.nCH || !W.chHasGrp) { vf_incon("curve-set case %s: no supported_groups extension in the ClientHello on the wire", cur_desc); return; }
+    /* what the client puts on offer is what its configuration enables */
+    if (offered & ~eC) report("group-offered-though-not-enabled", "client enables curves {%s}; its ClientHello offers {%s}", ec_str(eC), ec_str(offered));
+    if (c->forceCurve) {
+        /* rogue server: ServerKeyExchange on a curve of the server's own choosing.  Offered by the client = control (the mechanism yields a consistent handshake: must complete);
+           not offered = the client must not complete */
+        int ctl = (curve_flag(c->forceCurve) & eC) != 0;
+        if (W.skeCurve != c->forceCurve) { vf_stat("rogue_curve_not_effective", 1); if (ctl || cdone) vf_incon("rogue-curve case %s: ServerKeyExchange curve %d on the wire, %d wanted", cur_desc, W.skeCurve, c->forceCurve); return; }
+        if (ctl) { if (!(cdone && sdone)) vf_incon("rogue-curve control %s (curve offered by the client) did not complete", cur_desc); else { vf_stat("rogue_curve_controls_completed", 1); roundtrip(k); } return; }
+        if (cdone) report("group-not-offered", "rogue server: ServerKeyExchange uses curve %d, the client enabled {%s} and offered {%s} - the client completed the handshake", W.skeCurve, ec_str(eC), algs_str(W.grp, W.nGrp));
+        else vf_stat("rogue_curve_refused_by_client", 1);
+        return;
+    }
+    if (!(cdone && sdone)) {
+        /* completeness: a shared curve exists and nothing else stands in the way (RSA identity, or an ECDSA identity whose own curve both sides enabled) */
+        if (common && (!idf || (idf & common))) report("no-handshake-despite-common-group", "client curves {%s}, server curves {%s}, server identity %s: a curve is shared but the handshake failed (client alert-in %d, server alert-in %d)", ec_str(eC), ec_str(eS), S->name, k->c.alertDesc, k->s.alertDesc);
+        else vf_stat(common ? "ec_refused_identity_curve_not_shared" : "ec_refused_disjoint_sets", 1);
+        return;
+    }
+    if (W.abbrev) { vf_incon("curve-set case %s completed with an abbreviated handshake", cur_desc); return; }
+    if (!common) report("completed-without-common-group", "client curves {%s}, server curves {%s} share nothing: handshake completed (ServerKeyExchange curve %d)", ec_str(eC), ec_str(eS), W.skeCurve);
+    if (!W.skeCurve) { vf_incon("curve-set case %s completed but no named-curve ServerKeyExchange was seen on the wire", cur_desc); return; }
+    uint32_t f = curve_flag(W.skeCurve);
+    if (!f || !(f & eS)) report("group-not-enabled-on-server", "ServerKeyExchange uses curve %d; the server enabled {%s}", W.skeCurve, ec_str(eS));
+    if (!f || !(f & eC)) report("group-not-enabled-on-client", "ServerKeyExchange uses curve %d; the client enabled {%s}", W.skeCurve, ec_str(eC));
+    if (!in_list(W.grp, W.nGrp, (uint16_t) W.skeCurve)) report("group-not-offered", "ServerKeyExchange uses curve %d; ClientHello.supported_groups on the wire was {%s}", W.skeCurve, algs_str(W.grp, W.nGrp));
+    if (k->c.ssl->sec.peerCurveId && k->c.ssl->sec.peerCurveId != W.skeCurve) report("endpoints-disagree", "ServerKeyExchange on the wire names curve %d, the client recorded %d", W.skeCurve, (int) k->c.ssl->sec.peerCurveId);
+    if (k->s.ssl->ecInfo.ecCurveId && k->s.ssl->ecInfo.ecCurveId != W.skeCurve) report("endpoints-disagree", "ServerKeyExchange on the wire names curve %d, the server selected %d", W.skeCurve, (int) k->s.ssl->ecInfo.ecCurveId);
+    { psCipher16_t suc = 0, sus = 0; MX_ENTER(); matrixSslGetNegotiatedCiphersuite(k->c.ssl, &suc); matrixSslGetNegotiatedCiphersuite(k->s.ssl, &sus); MX_LEAVE();
+      if (suc != sus || !in_list(c->su, c->nsu, suc)) report("suite-not-offered", "client reports suite %04x, server %04x; offered {%s}", suc, sus, algs_str(c->su, c->nsu)); }
+    vf_statf(1, "ec_curve_in_force_%d", W.skeCurve);
+    if (idf && !(idf & eC)) vf_stat("ec_completed_with_identity_curve_outside_client_set", 1);   /* observation, see the assumptions */
+    roundtrip(k);
+    vf_stat("curve_negotiations_checked", 1);
+}
 /* same keys on both ends: 64 bytes each way must arrive */
 static void roundtrip(mx_conn *kp)
 {
@@ -417,10 +487,11 @@ static void run_case(void *a_)
     cur_class = cs->cls; vf_stat("cases", 1);
     force_alg = c->force; force_role = c->forceRole;
     open_pair(&k, c, sid, &rcs, &rcc);
+    force_curve = c->forceCurve;
     int common = c->cmask & c->smask; int expectV = vmask_max(common);
-    if (rcs < 0 || rcc < 0) { vf_stat("session_creation_refused", 1); if (c->sig || c->hrr) vf_incon("session creation refused for a %s configuration (%s)", cs->cls, cur_desc); if (rcs >= 0) mx_ep_free(&k.s); if (rcc >= 0) mx_ep_free(&k.c); return; }
+    if (rcs < 0 || rcc < 0) { vf_stat("session_creation_refused", 1); if (c->ec) vf_statf(1, "ec_session_refused_%s_%s_rc%d", rcs < 0 ? "server" : "client", ident[c->idS].name, rcs < 0 ? rcs : rcc); if (c->sig || c->hrr) vf_incon("session creation refused for a %s configuration (%s)", cs->cls, cur_desc); if (rcs >= 0) mx_ep_free(&k.s); if (rcc >= 0) mx_ep_free(&k.c); return; }
     int shSeen = pump(&k, cs);
-    force_alg = 0;
+    force_alg = 0; force_curve = 0;
     if (vf_case) fprintf(stderr, "  wire: v13=%d CH=%d HRR=%d SH=%d ske=%04x cvS=%04x cvC=%04x offered={%s} certreq=%d{%s} client.peerSigAlg=%04x\n", W.v13, W.nCH, W.nHRR, W.nSH, W.ske, W.cvS, W.cvC, algs_str(W.off, W.nOff), W.sawCreq, algs_str(W.creq, W.nCreq), k.c.ssl->peerSigAlg);
     int cdone = matrixSslHandshakeIsComplete(k.c.ssl) && !k.c.dead, sdone = matrixSslHandshakeIsComplete(k.s.ssl) && !k.s.dead;
     vf_statf(1, "outcome_%s", cdone && sdone ? "both-complete" : (cdone || sdone) ? "one-side-complete" : "failed");
@@ -444,6 +515,7 @@ static void run_case(void *a_)
         goto out;
     }
     if (c->sig) { sig_oracle(c, &k, cdone && sdone); goto out; }
+    if (c->ec) { ec_oracle(c, &k, cdone, sdone); goto out; }
     vf_distinct("%s|%d%d|%x|%x|%d|%04x|%d|%d|%d|%d|%d|%d|%s", cs->cls, c->ascC, c->ascS, c->cmask, c->smask, c->nsu, c->nsu ? c->su[0] : 0, c->nsdis, c->ngroupsC, c->ngroupsS, c->nsigC, c->emsC * 3 + c->emsS, c->scsv, c->nops ? strstr(cur_desc, " hist=") : "");
     /* ---- reference negotiation ---- */
     int mustFail = expectV < 0;
@@ -616,6 +688,34 @@ int main(int argc, char **argv)
           if (c.nsdis < 4) { cfg_t d = c; for (int i = 0; i < 4; i++) if (dis[i]) d.su[d.nsu++] = hu[ui].u[i]; for (int i = 0; i < 4; i++) if (!dis[i]) d.su[d.nsu++] = hu[ui].u[i]; add_case(&d, NULL, cls); }
           if (c.nsdis > 1 && (vf_thorough || h < 12)) for (int i = 0; i < 4; i++) if (dis[i]) { cfg_t d = c; d.nsu = 1; d.su[0] = hu[ui].u[i]; add_case(&d, NULL, cls); }
       } }
+    /* 10. ECDHE curve sets under (D)TLS <= 1.2 (sslSessOpts_t.ecFlags on both sides): every pair of non-empty subsets of {secp256r1, secp384r1, secp521r1} plus "option left alone" - so all
+       singleton, disjoint and nested pairs - and pairs reaching into secp192r1 / secp224r1; thorough: every pair of subsets of the five compiled-in curves.  ECDHE_RSA with the RSA identity and
+       ECDHE_ECDSA with the P-256 / P-384 / P-521 identities; TLS 1.2, TLS 1.1, DTLS 1.2 and a TLS 1.3-capable server that hands the TLS 1.2 hello to the legacy parser. */
+    { static const struct { int cm, sm; const char *cls; } evv[] = {
+          { 2, 2, "ecdhe-curve-sets" }, { 1, 1, "ecdhe-curve-sets" }, { 3 << MX_DTLS10, 3 << MX_DTLS10, "ecdhe-curve-sets-dtls" }, { 2, 7, "ecdhe-curve-sets" },
+          { 3, 3, "ecdhe-curve-sets" }, { 1 << MX_DTLS10, 1 << MX_DTLS10, "ecdhe-curve-sets-dtls" }, { 1, 7, "ecdhe-curve-sets" } };
+      static const uint32_t extra[][2] = { { 0x01, 0x01 }, { 0x01, 0x02 }, { 0x02, 0x0c }, { 0x03, 0x12 }, { 0x11, 0x06 }, { 0x02, 0x02 }, { 0x1c, 0x03 }, { 0x03, 0 }, { 0, 0x01 }, { 0x1f, 0x10 } };
+      uint32_t pairs[1100][2]; int np = 0;
+      if (vf_thorough) { for (uint32_t a = 0; a < 32; a++) for (uint32_t b = 0; b < 32; b++) { pairs[np][0] = a; pairs[np][1] = b; np++; } }
+      else { for (uint32_t a = 0; a < 8; a++) for (uint32_t b = 0; b < 8; b++) { pairs[np][0] = a << 2; pairs[np][1] = b << 2; np++; }
+             for (int i = 0; i < (int) (sizeof extra / sizeof extra[0]); i++) { pairs[np][0] = extra[i][0]; pairs[np][1] = extra[i][1]; np++; } }
+      for (int vi = 0; vi < (vf_thorough ? 7 : 4); vi++) for (int id = 1; id <= 4; id++) for (int pi = 0; pi < np; pi++) {
+          int ecdsa = ident[id].kt != KT_RSA;
+          if (ecdsa && vi >= 3) continue;                                              /* ECDSA identities: TLS 1.2, TLS 1.1, DTLS 1.2 */
+          if (!vf_thorough && ecdsa && vi > 0 && ((pi + id + vi) % 3)) continue;        /* quick: all pairs under TLS 1.2, a third of them per identity under TLS 1.1 / DTLS 1.2 */
+          cfg_t c = base; c.cmask = evv[vi].cm; c.smask = evv[vi].sm; c.ec = 1; c.ecC = pairs[pi][0]; c.ecS = pairs[pi][1]; c.idS = id; c.ecdsa = ecdsa;
+          if (c.cmask & ((1 << MX_TLS12) | (1 << MX_DTLS12))) c.su[c.nsu++] = ecdsa ? 0xc02b : 0xc02f;   /* a client without (D)TLS 1.2 refuses a list holding an AEAD suite */
+          c.su[c.nsu++] = ecdsa ? 0xc009 : 0xc013;
+          add_case(&c, NULL, evv[vi].cls); }
+      /* rogue server (curve chooser overridden through --wrap): client sets x curve forced on the server; a forced curve inside the client's set is the control */
+      static const struct { uint32_t ecC; int curve; } rg[] = { { 0x08, 23 }, { 0x08, 25 }, { 0x08, 19 }, { 0x04, 24 }, { 0x04, 25 }, { 0x0c, 25 }, { 0x0c, 21 }, { 0x10, 23 }, { 0x10, 24 }, { 0x14, 24 }, { 0x1e, 19 }, { 0x03, 23 },
+                                                           { 0x0c, 24 }, { 0x14, 25 }, { 0, 24 }, { 0x18, 24 } };   /* the last four: controls */
+      for (int vi = 0; vi < (vf_thorough ? 7 : 3); vi++) for (int id = 1; id <= (vf_thorough ? 4 : 2); id++) for (int ri = 0; ri < (int) (sizeof rg / sizeof rg[0]); ri++) {
+          int ecdsa = ident[id].kt != KT_RSA; if (ecdsa && vi >= 3) continue;
+          cfg_t c = base; c.cmask = evv[vi].cm; c.smask = evv[vi].sm; c.ec = 1; c.ecC = rg[ri].ecC; c.forceCurve = rg[ri].curve; c.idS = id; c.ecdsa = ecdsa;
+          if (c.cmask & ((1 << MX_TLS12) | (1 << MX_DTLS12))) c.su[c.nsu++] = ecdsa ? 0xc02b : 0xc02f;
+          c.su[c.nsu++] = ecdsa ? 0xc009 : 0xc013;
+          add_case(&c, NULL, "rogue-curve-server"); } }
     for (long i = 0; i < ncases; i++) {
         if (!vf_mine(i)) continue;
         case_t *cs = &cases[i];
@@ -623,6 +723,7 @@ int main(int argc, char **argv)
         if (cs->c.sig) snprintf(cur_desc + strlen(cur_desc), sizeof cur_desc - strlen(cur_desc), " idS=%s idC=%s sig%c={%s} force=%04x", ident[cs->c.idS].name, ident[cs->c.idC].name, cs->c.sig == 1 ? 'C' : 'S', cs->c.sig == 1 ? algs_str(cs->c.sigC, cs->c.nsigC) : algs_str(cs->c.sigS, cs->c.nsigS), cs->c.force);
         if (cs->c.ems) snprintf(cur_desc + strlen(cur_desc), sizeof cur_desc - strlen(cur_desc), " ems mode=%d established C%d/S%d judged C%d/S%d", cs->c.ems, cs->c.emsC1, cs->c.emsS1, cs->c.emsC, cs->c.emsS);
         if (cs->c.nops) { char *o = cur_desc + strlen(cur_desc); o += snprintf(o, 8, " hist="); for (int q = 0; q < cs->c.nops; q++) o += snprintf(o, 12, "%c%04x%s", cs->c.ops[q].en ? '+' : '-', cs->c.ops[q].id, cs->c.ops[q].glob ? "g" : ""); snprintf(o, 40, " offer=%s", algs_str(cs->c.su, cs->c.nsu)); }
+        if (cs->c.ec) snprintf(cur_desc + strlen(cur_desc), sizeof cur_desc - strlen(cur_desc), " idS=%s ecC=0x%x ecS=0x%x forceCurve=%d", ident[cs->c.idS].name, cs->c.ecC, cs->c.ecS, cs->c.forceCurve);
         if (cs->c.hrr) snprintf(cur_desc + strlen(cur_desc), sizeof cur_desc - strlen(cur_desc), " hrr groupsC=%u.. groupsS=%u.. ecdsa=%d", cs->c.groupsC[0], cs->c.groupsS[0], cs->c.ecdsa);
         if (vf_case) { long want = -1; sscanf(vf_case, "case=%ld", &want); if (want != i) continue; }
         if (i % 211 == 0) vf_sample("%s", cur_desc);
